@@ -932,3 +932,58 @@ def output_path_rule(crate, prop, rule="C11.R4"):
         r.fail(prop, "output-path-export_to", "export_to must yield `<dir>/<name>.ts` exactly when it ends in `/` and the path verbatim otherwise (templates %s)" % lits, some.file, some.line)
     r.floor = 2
     return r
+
+
+# ------------------------------------------------------------------ emitted dependency visits
+
+def deps_kind_templates(crate):
+    """{variant name: normalised text} of what `impl ToTokens for Dependency` emits per variant (helpers spliced in; an
+    interpolated value is named after what it is: `ty` for a syn::Type, `crate_rename` for a syn::Path)"""
+    b = crate.ibody("<deps::Dependency as quote::ToTokens>::to_tokens")
+    if b is None:
+        return None, {}
+    tpls = Q.templates(b)
+    inner = set()
+    for t in tpls:
+        for (_, l, ty) in t.interps:
+            sub = Q.stream_template(b, l, tpls) if l is not None and "TokenStream" in (ty or "") else None
+            if sub is not None:
+                inner.add(id(sub))
+    out = {}
+    for t in tpls:
+        if id(t) in inner:
+            continue
+        variant = None
+
+        def norm(tp, depth=3):
+            nonlocal variant
+            toks, k = [], 0
+            fl = tp.flat()
+            i = 0
+            while i < len(fl):
+                x = fl[i]
+                if x == "#" and i + 1 < len(fl) and k < len(tp.interps) and fl[i + 1] == tp.interps[k][0]:
+                    nm, l, ty = tp.interps[k]
+                    pj = tp.projs[k]
+                    k += 1
+                    sub = Q.stream_template(b, l, tpls) if l is not None and "TokenStream" in (ty or "") else None
+                    if sub is not None and sub is not tp and depth:
+                        toks += norm(sub, depth - 1)
+                    else:
+                        o = panics.operand_origin(b, {"k": "copy", "pl": {"l": l, "p": list(pj)}}) if l is not None else ""
+                        m = re.search(r"Dependency\.(\w+)::(\w+)$", o)
+                        if m:
+                            variant = variant or m.group(1)
+                        by_type = "ty" if "syn::Type" in (ty or "") else "crate_rename" if "syn::Path" in (ty or "") else nm
+                        role = m.group(2) if m and not m.group(2).isdigit() else by_type
+                        toks += ["#", role]
+                    i += 2
+                    continue
+                toks.append(x)
+                i += 1
+            return toks
+
+        txt = " ".join(norm(t))
+        if variant:
+            out["Dependency::" + variant] = txt
+    return b, out
